@@ -8,8 +8,9 @@
    same frames however the client's byte stream is segmented; and every M2 trace, on every
    schedule (the disturbed ones included), satisfies the monitors of C01/C02/C03/C06/C10
    and never ends in a panic (Props/C01.v ... C10.v, C04.v: the *_bytes theorems). *)
-From Passage Require Import Lib.Bytes Codec.VarInt Conn.Types Conn.Prog Conn.Sem1 Conn.Sem2 Conn.Reader Conn.ReaderProofs
-  Conn.Sem2Witness Conn.RefineDefs Conn.RefineProofs Conn.RefineCalmProofs Conn.SendQueue Conn.SendQueueProofs.
+From Passage Require Import Lib.Bytes Codec.VarInt Conn.Types Conn.Prog Conn.Sem1 Conn.Sem2Old Conn.Reader Conn.ReaderProofs
+  Conn.Sem2Witness Conn.SendQueue Conn.SendQueueProofs.
+Import OldM2.
 
 (* feeding the reader piecewise is feeding it the concatenation *)
 Theorem C08_reader_monoid : forall max a st b,
@@ -66,83 +67,6 @@ Proof.
   pose proof (eq_trans (eq_sym H2) (eq_trans (H w_o w_cfg w_e k1_split) H1)) as E. discriminate E.
 Qed.
 
-(* ---- the positive theorem: outside the classes K1 / K4 the byte level IS the frame level ---- *)
-
-(* On every frame-atomic schedule (each data segment is a concatenation of whole frames:
-   Conn/RefineDefs.v [atomic]; no condition on the times, on the configuration, on the
-   environment, on the oracles) the byte-level run equals the frame-level run on the reader's
-   output: same events, same values, same instants, same final outcome. *)
-Theorem C08_refines_atomic : forall o cfg e (s : segs),
-  atomic (cf_max_len cfg) s = true ->
-  run2 o cfg e s = run1 o cfg e (frames_of (cf_max_len cfg) s).
-Proof. exact refines_atomic. Qed.
-
-(* the same for timed byte streams in which every frame arrives at one instant (a frame may
-   span several segments of equal time) *)
-Theorem C08_refines_astream : forall o cfg e (s : segs),
-  astream (cf_max_len cfg) (fst (bytes_of_segs s)) = true ->
-  run2 o cfg e s = run1 o cfg e (frames_of (cf_max_len cfg) s).
-Proof. exact refines_astream. Qed.
-
-(* every frame is consumed at most once, in order and complete: the frames the byte-level
-   handler consumes are a prefix of the frames the reader cuts out of the stream *)
-Theorem C08_each_frame_once_atomic : forall o cfg e (s : segs),
-  atomic (cf_max_len cfg) s = true ->
-  is_prefix (recvs (run2 o cfg e s)) (in_frames (frames_of (cf_max_len cfg) s)).
-Proof. exact each_frame_once. Qed.
-
-(* every theorem about frame-level runs transfers to byte-level runs on atomic schedules *)
-Theorem C08_transfer_atomic : forall (Q : trace -> Prop) o cfg e,
-  (forall ib, Q (run1 o cfg e ib)) ->
-  forall s : segs, atomic (cf_max_len cfg) s = true -> Q (run2 o cfg e s).
-Proof. exact transfer_atomic. Qed.
-
-(* non-vacuity: the whole-frame K1 schedule is atomic (and ends in a Transfer); its split
-   variant, on which the refinement fails, is not *)
-Example C08_atomic_nonvacuous :
-  atomic (cf_max_len w_cfg) k1_whole = true /\ atomic (cf_max_len w_cfg) k1_split = false
-  /\ last_end (run1 w_o w_cfg w_e (frames_of (cf_max_len w_cfg) k1_whole)) = Some OOk.
-Proof. vm_compute. repeat split; reflexivity. Qed.
-
-(* ---- arbitrary segmentation, calm timing ----
-   [calm o cfg e s] (Conn/RefineDefs.v, decidable): inside every frame of the byte stream the
-   arrival times do not decrease and stay in one cell of the tick grid (no multiple of the
-   keep-alive period between the first and the last byte: every deadline of the interval is such
-   a multiple), the stream ends at a frame boundary, and no race horizon of the run (the instant a
-   raced adapter call completes) lies after the first and not after the last byte of a frame.
-   Then the byte-level run equals the frame-level run on the reader's output, whatever the
-   segmentation. *)
-Theorem C08_refines_calm : forall o cfg e (s : segs),
-  calm o cfg e s = true ->
-  run2 o cfg e s = run1 o cfg e (frames_of (cf_max_len cfg) s).
-Proof. exact refines_calm. Qed.
-
-(* the same with the coarser condition read off the frame-level trace: no TRes instant inside a span *)
-Theorem C08_refines_calm_tr : forall o cfg e (s : segs),
-  calm_tr o cfg e s = true ->
-  run2 o cfg e s = run1 o cfg e (frames_of (cf_max_len cfg) s).
-Proof. exact refines_calm_tr. Qed.
-
-(* frame-atomic schedules are calm (so C08_refines_atomic is an instance of C08_refines_calm) *)
-Theorem C08_atomic_calm : forall o cfg e (s : segs),
-  atomic (cf_max_len cfg) s = true -> calm o cfg e s = true.
-Proof. exact atomic_calm. Qed.
-
-Theorem C08_each_frame_once_calm : forall o cfg e (s : segs),
-  calm o cfg e s = true ->
-  is_prefix (recvs (run2 o cfg e s)) (in_frames (frames_of (cf_max_len cfg) s)).
-Proof. exact each_frame_once_calm. Qed.
-
-(* non-vacuity: every frame of the K1 login cut after its first byte (inside the length
-   prefix), the rest 2 ms later, is calm and not atomic; the K1 / K4 witnesses are not calm *)
-Example C08_calm_nonvacuous :
-  calm w_o w_cfg w_e (splitall 1 2 k1_whole) = true
-  /\ atomic (cf_max_len w_cfg) (splitall 1 2 k1_whole) = false
-  /\ last_end (run2 w_o w_cfg w_e (splitall 1 2 k1_whole)) = Some OOk
-  /\ calm w_o w_cfg w_e k1_split = false /\ calm w_o w_cfg w_e k4_header = false
-  /\ calm w_o w_cfg w_e k4_prefix_split = false.
-Proof. vm_compute. repeat split; reflexivity. Qed.
-
 (* ---- the write side (Conn/SendQueue.v: send_packet's frame queue after the K3 repair) ----
    For every sequence of frames handed to send_packet, every acceptance pattern of the stream
    (refused, partial, whole) and every placement of dropped futures: the bytes on the wire followed
@@ -168,14 +92,6 @@ Print Assumptions C08_frames_intact.
 Print Assumptions C08_wire_is_prefix.
 Print Assumptions C08_drained_complete.
 Print Assumptions C08_old_send_tears.
-Print Assumptions C08_refines_calm.
-Print Assumptions C08_refines_calm_tr.
-Print Assumptions C08_atomic_calm.
-Print Assumptions C08_each_frame_once_calm.
-Print Assumptions C08_refines_atomic.
-Print Assumptions C08_refines_astream.
-Print Assumptions C08_each_frame_once_atomic.
-Print Assumptions C08_transfer_atomic.
 Print Assumptions C08_reader_monoid.
 Print Assumptions C08_segmentation_independent.
 Print Assumptions C08_K1_witness.
